@@ -62,8 +62,9 @@ def check_batch(ctx, rep, direction, cases):
         if isinstance(frame, dict):
             continue
         if frame != a['spec']:
+            # (the known binary finding is about frames whose SPECIFIED bytes hold a delimiter, not about what was built)
             rep.violation('built packet differs from the specified ADU', case,
-                          finding=classify(n, direction, m, frame, 'build'), impl=frame, spec=a['spec'])
+                          finding=classify(n, direction, m, a['spec'] if isinstance(a['spec'], list) else frame, 'build'), impl=frame, spec=a['spec'])
             continue
         # the same message OBJECT built for two other framings first: the packet is that of the message, whatever was built before
         warm = [w for w in ('tcp', 'ascii', 'rtu') if w != n][:2]
